@@ -685,6 +685,7 @@ package astisub
 //@   requires !i.failed
 //@   ensures [C18-fault-reported] i.failed ==> err != nil
 //@   loop 1: invariant !i.failed
+//@   loop 1: invariant ch != nil && ch.m != nil && bimapvals(ch.m, string)
 //@   opt frame-assumed writes only memory allocated during the call (not proved for readers; used where a wrapper calls them)
 //@ end
 
@@ -740,6 +741,8 @@ package astisub
 //@ func parseOpenSubtitleRow(i *Item, d decoder, fs func() styler, row []byte) error
 //@   prop C08
 //@   requires i != nil && d != nil && ref(d) != 0
+//@   requires dynptr(d, stlCharacterHandler) ==> dynfield(d, stlCharacterHandler, m) != nil && bimapvals(dynfield(d, stlCharacterHandler, m), string)
+//@   loop 1: invariant dynptr(d, stlCharacterHandler) ==> dynfield(d, stlCharacterHandler, m) != nil && bimapvals(dynfield(d, stlCharacterHandler, m), string)
 //@   loop 1: invariant li.InlineStyle != nil && (s != nil ==> ref(s) != 0)
 //@ end
 
@@ -750,7 +753,7 @@ package astisub
 
 //@ func newSTLCharacterHandler(characterCodeTable uint16) (*stlCharacterHandler, error)
 //@   prop C08
-//@   ensures result1 == nil ==> result0 != nil
+//@   ensures result1 == nil ==> result0 != nil && result0.m != nil && bimapvals(result0.m, string)
 //@ end
 
 //@ func (s Subtitles) WriteToSTL(o io.Writer) (err error)
@@ -891,6 +894,8 @@ package astisub
 //@ func parseTeletextRow(i *Item, d decoder, fs func() styler, row []byte)
 //@   prop C08
 //@   requires i != nil && d != nil && ref(d) != 0
+//@   requires dynptr(d, stlCharacterHandler) ==> dynfield(d, stlCharacterHandler, m) != nil && bimapvals(dynfield(d, stlCharacterHandler, m), string)
+//@   loop 1: invariant dynptr(d, stlCharacterHandler) ==> dynfield(d, stlCharacterHandler, m) != nil && bimapvals(dynfield(d, stlCharacterHandler, m), string)
 //@   loop 1: invariant li.InlineStyle != nil && (s != nil ==> ref(s) != 0)
 //@ end
 
@@ -931,4 +936,9 @@ package astisub
 //@   prop C08 C18
 //@   requires !nil.fsfault
 //@   ensures [C18-fault-reported] nil.fsfault ==> result1 != nil
+//@ end
+
+//@ func (h *stlCharacterHandler) decode(i byte) (o []byte)
+//@   prop C08
+//@   requires h.m != nil && bimapvals(h.m, string)
 //@ end
